@@ -33,14 +33,22 @@ func (s seg) String() string {
 type pat struct {
 	Str    string // as registered with Muxer.Handle, e.g. /a/{x}/{*w}
 	Segs   []seg
-	Erased string // wildcard names erased: /a/{}/{*}
-	Wild   int    // number of wildcards
+	Wire   []string // per segment: the text of a literal as a URL carries it (url.PathEscape); "" for wildcards
+	Erased string   // wildcard names erased: /a/{}/{*}
+	Wild   int      // number of wildcards
+	EscLit bool     // some literal segment is spelled differently in a URL than in the pattern (space, non-ASCII)
 }
 
 func mkPat(segs []seg) pat {
-	p := pat{Segs: append([]seg{}, segs...)}
+	p := pat{Segs: append([]seg{}, segs...), Wire: make([]string, len(segs))}
 	var sb, eb strings.Builder
-	for _, s := range segs {
+	for i, s := range segs {
+		if s.Kind == kLit {
+			p.Wire[i] = url.PathEscape(s.Text)
+			if p.Wire[i] != s.Text {
+				p.EscLit = true
+			}
+		}
 		sb.WriteByte('/')
 		eb.WriteByte('/')
 		sb.WriteString(s.String())
@@ -110,6 +118,8 @@ func genPatterns(nonFinal, final []seg, maxLen int) []pat {
 var (
 	litA   = seg{kLit, "a"}
 	litB   = seg{kLit, "b"}
+	litE   = seg{kLit, "é"}   // non-ASCII literal: a URL carries it as %C3%A9
+	litSp  = seg{kLit, "a b"} // literal with a space: a URL carries it as a%20b
 	parX   = seg{kParam, "x"}
 	parY   = seg{kParam, "y"}
 	catchW = seg{kCatch, "w"}
@@ -126,7 +136,40 @@ var (
 	catchFull  = []string{"a", "a b", "%", "%41", "%2F", "%zz", "100%", "a/b", "+", "é", "日本", "", "a/b/c"}
 	singleProb = []string{"a", "%41", "a/b"}
 	catchProb  = []string{"a", "%41", "a/b", ""}
+	// value menus of the literal/encoding universe: the design menus plus the text that looks
+	// like the escaped spelling of the literal "é" (to a literal what %41 is to "A")
+	singleLit = append(append([]string{}, singleFull...), "%C3%A9")
+	catchLit  = append(append([]string{}, catchFull...), "%C3%A9")
+	// probe menus of the literal/encoding universe: one value per class that decides whether
+	// the parsed URL has a RawPath and whether the decoded and the escaped spelling differ
+	singleProbLit = []string{"a", "a b", "%41", "é", "a/b"}
+	catchProbLit  = []string{"a", "a b", "%41", "é", "a/b", ""}
 )
+
+// An encoder is one way a client spells a value in a URL path.
+//
+//	min: url.PathEscape, the minimal escaping. For most values (space, %, non-ASCII) the
+//	     parsed URL then has an EMPTY RawPath (the escaped spelling is the canonical one) and
+//	     the router works on the decoded URL.Path; only an escaped slash forces a RawPath.
+//	all: every byte of the value written as %XX. Equally valid, decodes to the same text, but
+//	     it is never the canonical spelling, so the parsed URL HAS a RawPath and the router
+//	     works on the escaped path - for every non-empty value, not only those with a slash.
+var (
+	encMin = []string{"min"}
+	encAll = []string{"min", "all"}
+)
+
+func encode(enc, v string) string {
+	if enc == "min" {
+		return url.PathEscape(v)
+	}
+	const hex = "0123456789ABCDEF"
+	b := make([]byte, 0, 3*len(v))
+	for i := 0; i < len(v); i++ {
+		b = append(b, '%', hex[v[i]>>4], hex[v[i]&15])
+	}
+	return string(b)
+}
 
 // valueClass is the abstract class of an original wildcard value used in signatures.
 func valueClass(v string) string {
@@ -205,6 +248,11 @@ func splitPath(p string) []string {
 // match is the reference matcher: segment-wise over the path exactly as the client sent it
 // (still escaped; an escaped slash %2F is part of a segment, not a separator).
 //
+// A literal segment of a pattern is compared with the spelling a URL carries it in
+// (url.PathEscape of the literal: "a" stays "a", "é" is %C3%A9, "a b" is a%20b); with
+// decoded=true the segments given are already percent-decoded and are compared with the
+// literal's own text (lenient readings only).
+//
 // strict (lenient=false): literals equal their segment, {name} takes exactly one non-empty
 // segment, {*name} takes everything after the "/" that follows the preceding segments
 // (possibly nothing), and a pattern without catch-all matches only paths with exactly as many
@@ -214,6 +262,10 @@ func splitPath(p string) []string {
 //
 // caps are the captured raw texts in pattern order.
 func match(p *pat, segs []string, lenient bool) (bool, []string) {
+	return matchForm(p, segs, lenient, false)
+}
+
+func matchForm(p *pat, segs []string, lenient, decoded bool) (bool, []string) {
 	var caps []string
 	for i, s := range p.Segs {
 		switch s.Kind {
@@ -237,7 +289,7 @@ func match(p *pat, segs []string, lenient bool) (bool, []string) {
 			}
 			caps = append(caps, segs[i])
 		default:
-			if len(segs) <= i || segs[i] != s.Text {
+			if len(segs) <= i || !decoded && segs[i] != p.Wire[i] || decoded && segs[i] != s.Text {
 				return false, nil
 			}
 		}
@@ -249,20 +301,23 @@ func match(p *pat, segs []string, lenient bool) (bool, []string) {
 }
 
 // lenientMatch reports whether p could be said to match under any reading the statement
-// leaves open: the escaped or the decoded path, with a trailing slash added or removed, empty
-// single-segment captures, catch-all without its separating slash.
-func lenientMatch(p *pat, rawSegs, decSegs []string) bool {
-	for _, segs := range [][]string{rawSegs, decSegs} {
-		if ok, _ := match(p, segs, true); ok {
+// leaves open: the escaped path, the escaped path decoded segment by segment (a literal the
+// client escaped more than needed, or with lower-case hex digits) or the decoded path, with a
+// trailing slash added or removed, empty single-segment captures, catch-all without its
+// separating slash.
+func lenientMatch(p *pat, rawSegs, decRaw, decSegs []string) bool {
+	for fi, segs := range [][]string{rawSegs, decRaw, decSegs} {
+		decoded := fi > 0
+		if ok, _ := matchForm(p, segs, true, decoded); ok {
 			return true
 		}
 		if n := len(segs); n > 1 && segs[n-1] == "" {
-			if ok, _ := match(p, segs[:n-1], true); ok {
+			if ok, _ := matchForm(p, segs[:n-1], true, decoded); ok {
 				return true
 			}
 		}
 		plus := append(append([]string{}, segs...), "")
-		if ok, _ := match(p, plus, true); ok {
+		if ok, _ := matchForm(p, plus, true, decoded); ok {
 			return true
 		}
 	}
@@ -273,12 +328,13 @@ func lenientMatch(p *pat, rawSegs, decSegs []string) bool {
 type build struct {
 	Pat    int      // index into the full pattern alphabet
 	Values []string // original values in pattern order
-	Forms  []string // per wildcard: "esc" (url.PathEscape of the value) or "lit" (slashes kept literal)
+	Forms  []string // per wildcard: "esc" (the whole value escaped) or "lit" (slashes kept literal) + "-" + encoder
 }
 
 // buildPaths returns every raw request path obtained by substituting escaped values from the
-// menus into p (complete product over the wildcards).
-func buildPaths(pi int, p *pat, single, catch []string, f func(raw string, b build)) {
+// menus into p (complete product over the wildcards of value x encoder); literal segments are
+// written the way a URL carries them (url.PathEscape).
+func buildPaths(pi int, p *pat, single, catch, encoders []string, f func(raw string, b build)) {
 	type choice struct{ val, enc, form string }
 	var opts [][]choice
 	for _, s := range p.Segs {
@@ -286,19 +342,23 @@ func buildPaths(pi int, p *pat, single, catch []string, f func(raw string, b bui
 		case kParam:
 			var o []choice
 			for _, v := range single {
-				o = append(o, choice{v, url.PathEscape(v), "esc"})
+				for _, e := range encoders {
+					o = append(o, choice{v, encode(e, v), "esc-" + e})
+				}
 			}
 			opts = append(opts, o)
 		case kCatch:
 			var o []choice
 			for _, v := range catch {
-				o = append(o, choice{v, url.PathEscape(v), "esc"})
-				if strings.Contains(v, "/") {
-					parts := strings.Split(v, "/")
-					for i := range parts {
-						parts[i] = url.PathEscape(parts[i])
+				for _, e := range encoders {
+					o = append(o, choice{v, encode(e, v), "esc-" + e})
+					if strings.Contains(v, "/") {
+						parts := strings.Split(v, "/")
+						for i := range parts {
+							parts[i] = encode(e, parts[i])
+						}
+						o = append(o, choice{v, strings.Join(parts, "/"), "lit-" + e})
 					}
-					o = append(o, choice{v, strings.Join(parts, "/"), "lit"})
 				}
 			}
 			opts = append(opts, o)
@@ -309,10 +369,10 @@ func buildPaths(pi int, p *pat, single, catch []string, f func(raw string, b bui
 		var sb strings.Builder
 		b := build{Pat: pi}
 		w := 0
-		for _, s := range p.Segs {
+		for si, s := range p.Segs {
 			sb.WriteByte('/')
 			if s.Kind == kLit {
-				sb.WriteString(s.Text)
+				sb.WriteString(p.Wire[si])
 				continue
 			}
 			c := opts[w][idx[w]]
